@@ -27,6 +27,9 @@ func NewLevelDBStore(cfg dbconfig.LevelDBOptions) (*LevelDBStore, error) {
 		opts.ErrorIfMissing = true
 	}
 	opts.Filter = filter.NewBloomFilter(10)
+	// goleveldb reuses the file number of a removed table; without this the block
+	// cache keeps serving the removed table's blocks for the new table.
+	opts.BlockCacheEvictRemoved = true
 	db, err := leveldb.OpenFile(cfg.DataDirectoryPath, opts)
 	if err != nil {
 		return nil, fmt.Errorf("failed to open LevelDB instance: %w", err)
